@@ -20,6 +20,11 @@ from harness import core
 from harness import coqemit as E
 from harness import fieldgen as G
 from harness import structgen as S
+from harness import c08enums as X
+
+# the enum-class vocabulary of this check (this process only): mixed-in primitive types, falsy values, by-value twins
+G.ENUMS.update(X.EXTRA)
+G.BY_VALUE.update(X.BY_VALUE)
 
 VT = "python3-vt"
 WORKER = os.path.join(os.path.dirname(os.path.dirname(os.path.abspath(__file__))), "c08_vt_worker.py")
@@ -81,6 +86,8 @@ def gen_sfield(rnd, depth, classes, max_depth, hashable=False, optional_ok=True)
         pool = [1, 2, 3, "a", "abc", "x", 2.5, 0, "RED", 10]
         if rnd.random() < 0.08:
             pool += [None, (1, 2), True]
+        if rnd.random() < 0.10:           # members among literals: exported by name (or as themselves under a mix-in)
+            pool += [G.Color.RED, X.Prio.HIGH, X.Tag.A, G.Size.M]
         return {"t": "enumlit", "values": [E.reify(v) for v in rnd.sample(pool, rnd.randint(1, 4))]}
     if t == "enumcls":
         cname = rnd.choice(sorted(G.ENUMS))
@@ -181,8 +188,9 @@ class Env(S.Context):
 
     def __init__(self):
         super().__init__()
-        exec("from typedpy import mappers\n", self.ns)
+        exec("from typedpy import mappers\n" + X.IMPORT, self.ns)
         self.required0 = {}
+        self.prelude = []            # (classes source, history) of earlier environments that share class NAMES with this one
 
     def add(self, c):
         exec(class_src(c), self.ns)
@@ -190,7 +198,7 @@ class Env(S.Context):
         self.classes[c["name"]] = self.ns[c["name"]]
 
     def source(self):
-        return "from typedpy import mappers\n" + "".join(class_src(c) + "\n" for c in self.asts)
+        return "from typedpy import mappers\n" + X.IMPORT + "".join(class_src(c) + "\n" for c in self.asts)
 
     def snapshot_required(self):
         for n, cls in self.classes.items():
@@ -442,9 +450,60 @@ def search_table(pats, insts):
 
 # ------------------------------------------------------------------ one case = one environment + top class
 
+def add_class(rnd, env, c, top):
+    """Realise class AST c in env (falling back to a plain class when typedpy rejects the declaration), and make
+    up to 3 valid instances of it.  Returns the instances [(kwargs, instance)]."""
+    name = c["name"]
+    materialise_defaults(rnd, c, env)
+    try:
+        env.add(c)
+    except Exception as ex:  # noqa  declaration rejected by typedpy: a plain class instead
+        c = {"name": name, "fields": [{"name": "a", "field": {"t": "num", "k": "Integer", "s": "Any"}}],
+             "additional": rnd.choice([False, True])}
+        env.add(c)
+    insts = []
+    for _ in range(3):
+        r = S.make_valid_instance(rnd, c, env, tries=6)
+        if r:
+            insts.append(r)
+    if top:
+        insts += tiny_sign_instances(c, env, insts)
+        if insts and env.resolved(name)["additional"] and not env.wrapper_form(name):
+            kw = list(insts[0][0]) + [("zz_more", rnd.choice([("int", 7), ("str", "x")]))]
+            try:                   # an instance using the additional properties its class allows
+                insts.append((kw, env.classes[name](**S.realize_kwargs(kw, env))))
+            except Exception:  # noqa
+                pass
+    env.instances[name] = [("struct", name, kw) for kw, _ in insts]
+    return insts
+
+
+def link_field(kind, cname):
+    """A declaration that reaches class cname through the given construct."""
+    ref = {"t": "ref", "cls": cname}
+    if kind == "direct":
+        return ref
+    if kind == "array":
+        return {"t": "seqeach", "k": "list", "item": ref, "sz": [None, None], "uniq": False}
+    if kind == "map":
+        return {"t": "mapkv", "kf": {"t": "str"}, "vf": ref, "sz": [None, None]}
+    if kind == "anyof":
+        return {"t": "anyof", "fs": [ref, {"t": "str"}]}
+    if kind == "optional":
+        return {"t": "anyof", "fs": [ref, {"t": "none"}]}
+    if kind == "tuple":
+        return {"t": "tuple", "items": [ref, {"t": "num", "k": "Integer", "s": "Any"}], "uniq": False}
+    if kind == "seqpos":
+        return {"t": "seqpos", "k": "list", "items": [ref], "sz": [None, None], "uniq": False, "additional": False}
+    raise ValueError(kind)
+
+
+LINKS = ["direct", "array", "map", "anyof", "optional", "tuple", "seqpos"]
+
+
 def build_case(rnd, idx, tier):
     env = Env()
-    n_aux = rnd.choice([0, 1, 1, 2])
+    n_aux = rnd.choice([0, 1, 1, 2, 2, 3])
     max_depth = 2
     made = []
     for i in range(n_aux + 1):
@@ -453,32 +512,94 @@ def build_case(rnd, idx, tier):
         wrapper = (not top and rnd.random() < 0.25) or (top and rnd.random() < 0.08)
         c = gen_class(rnd, name, [m for m in made] + (["Inner", "Other"] if rnd.random() < 0.3 else []),
                       max_depth, wrapper=wrapper, exact=top and idx % 5 == 4)
-        materialise_defaults(rnd, c, env)
-        try:
-            env.add(c)
-        except Exception as ex:  # noqa  declaration rejected by typedpy: regenerate a plain one
-            c = {"name": name, "fields": [{"name": "a", "field": {"t": "num", "k": "Integer", "s": "Any"}}],
-                 "additional": rnd.choice([False, True])}
-            env.add(c)
-        insts = []
-        for _ in range(3):
-            r = S.make_valid_instance(rnd, c, env, tries=6)
-            if r:
-                insts.append(r)
-        if top:
-            insts += tiny_sign_instances(c, env, insts)
-            if insts and env.resolved(name)["additional"] and not env.wrapper_form(name):
-                kw = list(insts[0][0]) + [("zz_more", rnd.choice([("int", 7), ("str", "x")]))]
-                try:                   # an instance using the additional properties its class allows
-                    insts.append((kw, env.classes[name](**S.realize_kwargs(kw, env))))
-                except Exception:  # noqa
-                    pass
-        env.instances[name] = [("struct", name, kw) for kw, _ in insts]
+        if made and idx % 5 != 4 and rnd.random() < 0.5:
+            # reference chains: this class reaches the previous one (which may reach the one before it, ...)
+            fd = rnd.choice(c["fields"])
+            fd["field"] = link_field(rnd.choice(LINKS), made[-1])
+            fd.pop("want_default", None)
+        env.top_instances = add_class(rnd, env, c, top)
         made.append(name)
-        env.top_instances = insts
     env.top = made[-1]
+    env.generated = list(made)
     env.snapshot_required()
+    env.history = gen_history(rnd, env)
     return env
+
+
+def gen_history(rnd, env):
+    """A process history of exports ending with (or containing) the top class: [(class name, shared)], shared = the
+    definitions dict returned by the previous export is passed on (the documented way of exporting several classes
+    into one document) instead of a fresh {}."""
+    top, aux = env.top, [n for n in env.generated if n != env.top]
+    r = rnd.random()
+    if r < 0.30 or (not aux and r < 0.6):
+        return [(top, False)]
+    if r < 0.50 or not aux:
+        return [(top, False), (top, False)]
+    if r < 0.65:
+        order = list(aux)
+        rnd.shuffle(order)
+        return [(a, False) for a in order] + [(top, False)]
+    if r < 0.80:
+        return [(top, False), (rnd.choice(aux), False), (top, False)]
+    order = rnd.sample(aux, rnd.randint(1, len(aux)))
+    return [(order[0], False)] + [(a, True) for a in order[1:]] + [(top, True)]
+
+
+class Event:
+    """One call of structure_to_schema inside an environment's history."""
+
+    def __init__(self, env, pos):
+        self.env, self.pos = env, pos
+        self.cls, self.shared = env.history[pos]
+        self.pre = []            # classes exported earlier into the same definitions dict
+        self.out = None
+
+
+def run_history(env):
+    """Performs env.history on the real structure_to_schema.  Returns the events."""
+    from typedpy import structure_to_schema
+    events = []
+    defs, pre = None, []
+    for pos in range(len(env.history)):
+        ev = Event(env, pos)
+        if not ev.shared or defs is None:
+            defs, pre = {}, []
+        ev.pre = list(pre)
+        cls = env.classes[ev.cls]
+        try:
+            schema, got = structure_to_schema(cls, defs)
+            ev.out = ("ok", json.loads(json.dumps(schema)) if is_jsonable(schema) else copy.deepcopy(dict(schema)),
+                      json.loads(json.dumps(got)) if is_jsonable(got) else copy.deepcopy(got))
+            defs = got if isinstance(got, dict) else None
+            pre.append(ev.cls)
+        except Exception as ex:  # noqa
+            ev.out = ("raise", E.exn_name(ex))
+            defs, pre = None, []
+        events.append(ev)
+    env.required_mutated = env.restore_required()
+    return events
+
+
+def replay_fields(ev):
+    env = ev.env
+    return {"classes_src": env.source(), "prelude": env.prelude, "history": [list(h) for h in env.history[:ev.pos + 1]],
+            "target": ev.cls}
+
+
+def hist_lines(history):
+    return "".join("s, d = structure_to_schema(%s, %s)\n" % (c, "d" if (sh and i) else "{}") for i, (c, sh) in enumerate(history))
+
+
+def script(ev, tail=""):
+    """Human-readable Python text of a replay (the replay itself is driven by replay_fields)."""
+    env = ev.env
+    pre = "from typedpy import *\n"
+    for src, hist in env.prelude:
+        pre += "# --- an earlier, independent set of classes exported in the same process\n" + src + hist_lines(hist)
+    if env.prelude:
+        pre += "# --- the classes of this case\n"
+    return pre + env.source() + hist_lines(env.history[:ev.pos + 1]) + tail
 
 
 def tiny_sign_instances(c, env, insts):
@@ -500,18 +621,158 @@ def tiny_sign_instances(c, env, insts):
     return out
 
 
-def export(env):
-    """The real structure_to_schema on the top class -> ("ok", schema, defs) | ("raise", cls)."""
-    from typedpy import structure_to_schema
-    cls = env.classes[env.top]
-    try:
-        schema, defs = structure_to_schema(cls, {})
-        out = ("ok", json.loads(json.dumps(schema)) if is_jsonable(schema) else copy.deepcopy(dict(schema)),
-               json.loads(json.dumps(defs)) if is_jsonable(defs) else copy.deepcopy(defs))
-    except Exception as ex:  # noqa
-        out = ("raise", E.exn_name(ex))
-    env.required_mutated = env.restore_required()
-    return out
+# ------------------------------------------------------------------ deterministic lattices
+
+INT = {"t": "num", "k": "Integer", "s": "Any"}
+ENUM_POS = ["direct", "array", "map", "set", "tuple", "anyof", "optional", "default", "wrapper"]
+
+
+def enum_position(pos, ef):
+    if pos in ("direct", "default", "wrapper"):
+        return ef
+    if pos == "array":
+        return {"t": "seqeach", "k": "list", "item": ef, "sz": [None, None], "uniq": False}
+    if pos == "map":
+        return {"t": "mapkv", "kf": {"t": "str"}, "vf": ef, "sz": [None, None]}
+    if pos == "set":
+        return {"t": "set", "imm": False, "item": ef, "sz": [None, None]}
+    if pos == "tuple":
+        return {"t": "tuple", "items": [ef, INT], "uniq": False}
+    if pos == "anyof":
+        return {"t": "anyof", "fs": [ef, INT]}
+    if pos == "optional":
+        return {"t": "anyof", "fs": [ef, {"t": "none"}]}
+    raise ValueError(pos)
+
+
+def enum_value_at(pos, vals):
+    """Reified value for the enum position holding the given member values (all of them where the position is a
+    container, the first one otherwise)."""
+    if pos == "array":
+        return ("list", list(vals))
+    if pos == "map":
+        return ("dict", [(("str", "k%d" % i), v) for i, v in enumerate(vals)])
+    if pos == "set":
+        return G.mk_set(False, list(vals))
+    if pos == "tuple":
+        return ("tuple", [vals[0], ("int", 7)])
+    return vals[0]
+
+
+def enum_lattice(rnd, idx0, tier):
+    """Every enum class of the vocabulary x every position an Enum field can take x (thorough: every proper prefix of
+    the members as an explicit subset); instances: every allowed member, as object and by name."""
+    envs = []
+    idx = idx0
+    for cname in sorted(G.ENUMS):
+        names = [m.name for m in G.ENUMS[cname]]
+        subsets = [names] + ([names[:k] for k in range(1, len(names))] if tier == "thorough" else [names[:1]])
+        for si, members in enumerate(subsets):
+            for pos in ENUM_POS:
+                if si > 0 and tier != "thorough" and pos not in ("direct", "array"):
+                    continue
+                ef = {"t": "enumcls", "cls": cname, "members": list(members)}
+                env = Env()
+                name = "K%d_0" % idx
+                idx += 1
+                fields = [{"name": "e", "field": enum_position(pos, ef)}]
+                if pos == "default":
+                    fields[0]["default"] = E.reify(G.ENUMS[cname][members[0]])
+                if pos != "wrapper":
+                    fields.append({"name": "n", "field": INT})
+                c = {"name": name, "fields": fields, "additional": False}
+                try:
+                    env.add(c)
+                except Exception:  # noqa  declaration rejected by typedpy
+                    continue
+                insts = []
+                objs = [E.reify(G.ENUMS[cname][m]) for m in members]
+                strs = [("str", m) for m in members]
+                for vals in [objs, strs] + [[o] for o in objs[1:]] + [[s_] for s_ in strs[1:]]:
+                    kw = [("e", enum_value_at(pos, vals))] + ([("n", ("int", 1))] if pos != "wrapper" else [])
+                    try:
+                        insts.append((kw, env.classes[name](**S.realize_kwargs(kw, env))))
+                    except Exception:  # noqa  (e.g. members of a str mix-in class are rejected as objects)
+                        pass
+                env.instances[name] = [("struct", name, kw) for kw, _ in insts]
+                env.top_instances = insts
+                env.top = name
+                env.generated = [name]
+                env.snapshot_required()
+                env.history = [(name, False)]
+                env.lattice = "enum:%s:%s:%s" % (cname, pos, "all" if si == 0 else "subset%d" % len(members))
+                envs.append(env)
+    return envs, idx
+
+
+def ref_shapes(tier):
+    """Reference graphs: chains of depth 1..3 through every linking construct, a diamond, two tops sharing a middle
+    class.  Each: list of (suffix, [fields]) in definition order, the last one is the top class."""
+    leafs = [[{"name": "a", "field": INT}, {"name": "b", "field": {"t": "str"}}],
+             [{"name": "v", "field": {"t": "str"}}, {"name": "w", "field": {"t": "bool"}}, {"name": "a", "field": {"t": "str"}}]]
+    shapes = []
+    k = 0
+    for depth in (1, 2, 3):
+        for link in LINKS:
+            cls = [("Leaf", leafs[k % 2])]
+            k += 1
+            prev = "Leaf"
+            for d in range(depth):
+                nm = ["Mid", "Up", "Top"][d] if d < depth - 1 else "Top"
+                cls.append((nm, [{"name": "x", "field": ("LINK", link, prev)}, {"name": "n", "field": INT}]))
+                prev = nm
+            shapes.append(("chain%d:%s" % (depth, link), cls))
+    shapes.append(("diamond", [("Leaf", leafs[0]),
+                               ("Mid", [{"name": "z", "field": ("LINK", "direct", "Leaf")}, {"name": "n", "field": INT}]),
+                               ("Up", [{"name": "z", "field": ("LINK", "array", "Leaf")}, {"name": "m", "field": INT}]),
+                               ("Top", [{"name": "l", "field": ("LINK", "direct", "Mid")},
+                                        {"name": "r", "field": ("LINK", "direct", "Up")}])]))
+    shapes.append(("shared-mid", [("Leaf", leafs[1]),
+                                  ("Mid", [{"name": "z", "field": ("LINK", "direct", "Leaf")}, {"name": "n", "field": INT}]),
+                                  ("Up", [{"name": "m", "field": ("LINK", "direct", "Mid")}, {"name": "x", "field": INT}]),
+                                  ("Top", [{"name": "m", "field": ("LINK", "optional", "Mid")}, {"name": "y", "field": {"t": "str"}}])]))
+    return shapes
+
+
+def ref_histories(names):
+    """Export histories over the classes of a reference graph (names in definition order, top last)."""
+    top, aux = names[-1], names[:-1]
+    hs = [("repeat", [(top, False), (top, False)]),
+          ("parts-first", [(a, False) for a in aux] + [(top, False)]),
+          ("one-document", [(aux[0], False)] + [(a, True) for a in aux[1:]] + [(top, True)])]
+    if len(aux) >= 2:
+        hs.append(("top-mid-top", [(top, False), (aux[-1], False), (top, False)]))
+        hs.append(("top-leaf-top", [(top, False), (aux[0], False), (top, False)]))
+    return hs
+
+
+def ref_lattice(rnd, tier):
+    """Reference graphs x export histories; every environment defines its OWN classes under the SAME class names
+    (Leaf/Mid/Up/Top) as the ones before it, with different fields, so that any state kept across exports (by class
+    object or by class name) is exercised.  The replay of a failure carries the earlier environments as prelude."""
+    envs = []
+    prelude = []
+    for sname, cls in ref_shapes(tier):
+        names = [n for n, _ in cls]
+        for hname, hist in ref_histories(names):
+            if tier != "thorough" and sname.startswith("chain1") and hname != "repeat":
+                continue
+            env = Env()
+            env.prelude = list(prelude)
+            for i, (nm, fields) in enumerate(cls):
+                c = {"name": nm, "additional": False,
+                     "fields": [{"name": fd["name"], "field": link_field(fd["field"][1], fd["field"][2])
+                                 if isinstance(fd["field"], tuple) else fd["field"]} for fd in fields]}
+                env.top_instances = add_class(rnd, env, c, top=False)
+            env.top = names[-1]
+            env.generated = list(names)
+            env.snapshot_required()
+            env.history = hist
+            env.lattice = "ref:%s:%s" % (sname, hname)
+            envs.append(env)
+            prelude = (prelude + [(("from typedpy import mappers\n" + "".join(class_src(c) + "\n" for c in env.asts[3:])),
+                                   [list(h) for h in hist])])[-6:]
+    return envs
 
 
 def serialize_top(env, inst):
@@ -584,6 +845,26 @@ def rep_tuple1(doc, ctx):
             s["items"] = s["items"][0]
             del s["additionalItems"]
             ctx["changed"] = True
+    walk_schemas(doc, fn)
+
+
+def has_key(s, key):
+    if isinstance(s, dict):
+        return key in s or any(has_key(v, key) for v in s.values())
+    if isinstance(s, list):
+        return any(has_key(v, key) for v in s)
+    return False
+
+
+def rep_tuple_untyped(doc, ctx):
+    """Tuple export (items list + additionalItems false): the serializer renders Tuple elements without their item
+    fields, so an enum member with a mixed-in primitive type appears by value where the item schema lists names."""
+    def fn(s):
+        if s.get("type") == "array" and isinstance(s.get("items"), list) and s.get("additionalItems") is False:
+            for i, x in enumerate(s["items"]):
+                if has_key(x, "enum"):
+                    s["items"][i] = {}
+                    ctx["changed"] = True
     walk_schemas(doc, fn)
 
 
@@ -779,6 +1060,7 @@ WF_REPAIRS = [("patternProperties-not-an-object-of-schemas", rep_patprops), ("re
 COMPLETE_REPAIRS = [("sign-only-bound-rendered-as-epsilon", rep_eps), ("nested-field-wrapper", rep_wrapper),
                     ("required-key-of-None-valued-attribute-dropped", rep_none_required),
                     ("single-item-Tuple-is-homogeneous", rep_tuple1),
+                    ("Tuple-elements-serialized-without-their-item-fields", rep_tuple_untyped),
                     ("mapper-propagates-into-nested-class", rep_nested_mapper),
                     ("Set-minItems-checked-before-normalisation", rep_set_minitems),
                     ("uniqueItems-checked-before-normalisation", rep_unique_bool),
@@ -866,15 +1148,16 @@ def classify(failures, repairs, prefix, generic):
 
 # ------------------------------------------------------------------ Coq evaluation
 
-HEADER = """From Coq Require Import ZArith NArith String List Bool. Import ListNotations.
+HEADER0 = """From Coq Require Import ZArith NArith String List Bool. Import ListNotations.
 From TP Require Import Check.C08chk.
 Local Open Scope string_scope.
+Definition einfo0 : list (pystr * eopts) := %s.
 """
 
 
 def coq_eval(defs_and_evals, tag):
     """defs_and_evals: list of (shard text, number of Eval lines).  Returns list of lists of nat lists."""
-    res = core.eval_cases([t for t, _ in defs_and_evals], tag, HEADER)
+    res = core.eval_cases([t for t, _ in defs_and_evals], tag, HEADER0 % einfo_text())
     out = []
     for (rc, so, se), (_, n) in zip(res, defs_and_evals):
         vals = core.parse_eval(so)
@@ -884,22 +1167,33 @@ def coq_eval(defs_and_evals, tag):
     return out
 
 
-def scase_text(env, obs, pats):
+def einfo_text():
+    return E.lst(["(%s, {| eo_mixin := %s; eo_by_value := %s |})" % (E.pstr(n), X.mixin_of(c), E.blit(n in G.BY_VALUE))
+                  for n, c in sorted(G.ENUMS.items())])
+
+
+def env_text(env):
+    if getattr(env, "_text", None) is None:
+        env._text = E.lst(["\n  " + env.emit_classdef(c["name"]) for c in env.asts])
+    return env._text
+
+
+def scase_text(ev, pats):
+    env, obs = ev.env, ev.out
     o = "None"
     if obs[0] == "ok":
         o = "(Some (%s, %s))" % (jval(obs[1]), jval(obs[2]))
-    return "{| sc_env := %s; sc_smap := %s; sc_pats := %s; sc_cls := %s; sc_obs := %s |}" % (
-        E.lst(["\n  " + env.emit_classdef(c["name"]) for c in env.asts]), env.coq_smap(), pats.ptable(),
-        E.pstr(env.top), o)
+    return ("{| sc_env := %s; sc_einfo := einfo0; sc_smap := %s; sc_pats := %s; sc_pre := %s; sc_cls := %s; "
+            "sc_obs := %s |}") % (env_text(env), env.coq_smap(), pats.ptable(), E.lst([E.pstr(n) for n in ev.pre]),
+                                  E.pstr(ev.cls), o)
 
 
 def rcase_text(env, attrs, obs_json):
-    strs = set()
     vals = [v for _, v in attrs]
     fields = [fd["field"] for c in env.asts for fd in c["fields"]]
-    return "{| rc_tbl := %s; rc_env := %s; rc_smap := %s; rc_cls := %s; rc_attrs := %s; rc_obs := %s |}" % (
-        G.emit_table(G.match_table(fields, vals)),
-        E.lst(["\n  " + env.emit_classdef(c["name"]) for c in env.asts]), env.coq_smap(effective=True), E.pstr(env.top),
+    return ("{| rc_tbl := %s; rc_env := %s; rc_einfo := einfo0; rc_smap := %s; rc_cls := %s; rc_attrs := %s; "
+            "rc_obs := %s |}") % (
+        G.emit_table(G.match_table(fields, vals)), env_text(env), env.coq_smap(effective=True), E.pstr(env.top),
         E.lst(["(%s, %s)" % (E.pstr(k), E.pval(v)) for k, v in attrs]), jval(obs_json))
 
 
@@ -989,45 +1283,90 @@ def deser_accepts(env, doc):
 
 # ------------------------------------------------------------------ the check
 
+def exact_culprit(env, doc, exn):
+    """Which field of the (flat, exact-fragment) top class makes the Deserializer reject a document its schema admits:
+    every field is tried alone, in a single-field class, on its own value.  -> a declaration shape."""
+    from typedpy import Deserializer
+    if not isinstance(doc, dict):
+        return "document"
+    out = []
+    for fd in env.ast(env.top)["fields"]:
+        if fd["name"] not in doc:
+            continue
+        try:
+            T = S.single_field_class(fd["field"], env)
+            Deserializer(T).deserialize({"f": copy.deepcopy(doc[fd["name"]])})
+        except Exception as ex:  # noqa
+            out.append(field_kind(fd["field"]))
+    return "+".join(sorted(set(out))) if out else "class"
+
+
+def field_kind(f):
+    t = f["t"]
+    if t == "enumcls":
+        return "enumcls-%s%s" % (X.mixin_of(G.ENUMS[f["cls"]]), "-by-value" if f["cls"] in G.BY_VALUE else "")
+    if t in ("seqeach", "set"):
+        return "%s(%s)" % (t, field_kind(f["item"])) if f.get("item") else t
+    if t == "mapkv":
+        return "mapkv(%s)" % field_kind(f["vf"])
+    if t == "num":
+        return "num-%s-%s" % (f["k"], f["s"])
+    return t
+
+
 def run(rep, tier):
     rnd = random.Random(core.seed() * 1000003 + 8)
     n_env = 170 if tier == "quick" else 1400
     proofs_ok, model_ok = core.standard_proof_obligations(rep, "C08", ["theories/Check/C08chk.vo"])
     pats = Pats()
-    envs, exports = [], []
+    envs = []
     for idx in range(n_env):
-        env = build_case(rnd, idx, tier)
-        envs.append(env)
-        exports.append(export(env))
+        envs.append(build_case(rnd, idx, tier))
+    lat_e, _ = enum_lattice(rnd, n_env, tier)
+    lat_r = ref_lattice(rnd, tier)
+    envs += lat_e + lat_r
+    events = []
+    for env in envs:
+        env.events = run_history(env)
+        events += env.events
     mutated = sum(1 for e in envs if e.required_mutated)
+    rep.cov["streams"]["lattice:enum"] = {"evaluations": len(lat_e)}
+    rep.cov["streams"]["lattice:ref-graph-x-history"] = {"evaluations": len(lat_r)}
 
     # ---- oracle jobs: real export (dialect-translated) + real serializations (+ boundary documents)
     jobs, meta = [], []
-    for ei, (env, ex) in enumerate(zip(envs, exports)):
-        rep.count("export", 1, ("export", tuple(sorted(G.shape(fd["field"]) for fd in env.ast(env.top)["fields"])), ex[0]))
-        rep.stat("export", "outcome:" + (ex[0] if ex[0] == "ok" else ex[1]))
+    for vi, ev in enumerate(events):
+        env, ex = ev.env, ev.out
+        stream = "export" if not getattr(env, "lattice", None) else "export:" + env.lattice.split(":")[0]
+        rep.count(stream, 1, ("export", tuple(sorted(G.shape(fd["field"]) for fd in env.ast(ev.cls)["fields"])), ex[0]))
+        rep.stat(stream, "outcome:" + (ex[0] if ex[0] == "ok" else ex[1]))
+        rep.stat("history", "%s%s" % ("first" if ev.pos == 0 else "later", ":same-dict" if ev.pre else ""))
+        if any(c == ev.cls for c, _ in env.history[:ev.pos]):
+            rep.stat("history", "class-exported-before")
         if ex[0] != "ok":
             continue
         if not (is_jsonable(ex[1]) and is_jsonable(ex[2])):
             rep.finding("C08/wf/not-json", "the export is not a JSON document",
-                        {"python": env.source() + "\nprint(structure_to_schema(%s, {}))" % env.top, "env_index": ei})
+                        dict(replay_fields(ev), python=script(ev, "print(s, d)"), kind="wf"))
             continue
         doc = fix_dialect_py(dict(ex[1]))
         doc["definitions"] = fix_dialect_py(ex[2])
         sers, kinds = [], []
-        for kw, inst in env.top_instances:
-            try:
-                j = serialize_top(env, inst)
-            except Exception as e:  # noqa  the serializer's own failures are C05's subject
-                rep.stat("serialize", "raises:" + type(e).__name__)
-                continue
-            if not is_jsonable(j):
-                rep.stat("serialize", "not-json")
-                continue
-            sers.append((kw, inst, json.loads(json.dumps(j))))
-            kinds.append("ser")
+        if ev.cls == env.top:
+            for kw, inst in env.top_instances:
+                try:
+                    j = serialize_top(env, inst)
+                except Exception as e:  # noqa  the serializer's own failures are C05's subject
+                    rep.stat("serialize", "raises:" + type(e).__name__)
+                    continue
+                if not is_jsonable(j):
+                    rep.stat("serialize", "not-json")
+                    continue
+                sers.append((kw, inst, json.loads(json.dumps(j))))
+                kinds.append("ser")
         docs = [j for _, _, j in sers]
-        if exact_class(env) and docs:
+        last_top = ev.cls == env.top and not any(c == env.top for c, _ in env.history[ev.pos + 1:])
+        if last_top and exact_class(env) and docs:
             for _ in range(6 if tier == "quick" else 10):
                 docs.append(near(rnd, rnd.choice(docs[:len(sers)])))
                 kinds.append("near")
@@ -1041,7 +1380,7 @@ def run(rep, tier):
                     docs.append({k: v for k, v in docs[0].items() if k != req[0]})
                     kinds.append("near")
         jobs.append({"doc": doc, "instances": docs})
-        meta.append((ei, sers, kinds))
+        meta.append((vi, sers, kinds))
     try:
         results = run_vt(jobs)
     except Exception as ex:  # noqa
@@ -1051,32 +1390,32 @@ def run(rep, tier):
     vcases, wcases = [], []
     n_ser = n_near = n_exact_dis = 0
     wf_fail, comp_fail = [], []
-    for (ei, sers, kinds), job, res in zip(meta, jobs, results):
-        env, ex = envs[ei], exports[ei]
-        src = env.source()
-        eff = env.effective_renames()
+    for (vi, sers, kinds), job, res in zip(meta, jobs, results):
+        ev = events[vi]
+        env, ex = ev.env, ev.out
+        eff = env.effective_renames() if ev.cls == env.top else {}
         if res["crash"]:
-            rep.broken("oracle:check_schema", res["crash"], {"python": src})
+            rep.broken("oracle:check_schema", res["crash"], {"python": script(ev)})
         wf_ok = res["schema_error"] is None and not res["refs_missing"]
         rep.count("wf", 1, ("wf", wf_ok, (res["schema_error"] or {}).get("keyword")))
         rep.stat("wf", "well-formed" if wf_ok else "ill-formed")
         if not wf_ok:
             wf_fail.append({"doc": job["doc"], "inst": None, "ctx": {"env": env, "eff": eff, "kwargs": []},
-                            "res": res, "src": src, "ex": ex})
+                            "res": res, "ev": ev})
         # documents are validated against the export with its well-formedness defects repaired (a validator has
         # no defined verdict on an ill-formed schema); the ill-formedness itself is reported above
         base, base_names = (job["doc"], []) if wf_ok else apply_repairs(job["doc"], WF_REPAIRS, {"env": env, "eff": eff})
         try:
             wdoc = {k: v for k, v in job["doc"].items() if k != "definitions"}
-            wcases.append("{| wc_doc := %s; wc_verdict := %s |}" % (emit_doc(wdoc, job["doc"]["definitions"], pats), E.blit(wf_ok)))
             dtext = emit_doc(wdoc, job["doc"]["definitions"], pats)
+            wcases.append("{| wc_doc := %s; wc_verdict := %s |}" % (dtext, E.blit(wf_ok)))
         except Exception as e:  # noqa
-            rep.broken("parse:export", "export outside the modelled syntax: %s" % e, {"python": src, "schema": ex[1]})
+            rep.broken("parse:export", "export outside the modelled syntax: %s" % e, {"python": script(ev), "schema": ex[1]})
             continue
         for di, (j, kind, verdict, err) in enumerate(zip(job["instances"], kinds, res["verdicts"], res["errors"])):
             if verdict is None:
                 if wf_ok:
-                    rep.broken("oracle:validator-crash", err["message"], {"python": src, "doc": j})
+                    rep.broken("oracle:validator-crash", err["message"], {"python": script(ev), "doc": j})
                 continue
             if wf_ok:
                 vcases.append((dtext, j, verdict))
@@ -1087,7 +1426,7 @@ def run(rep, tier):
                     rep.stat("complete", "no-verdict:ill-formed-patternProperties")   # reported as the wf finding
                 elif not verdict:
                     comp_fail.append({"doc": base, "inst": (j,), "ctx": {"env": env, "eff": eff, "kwargs": sers[di][0]},
-                                      "err": err, "src": src, "ex": ex, "kw": sers[di][0], "wf_ok": wf_ok})
+                                      "err": err, "ev": ev, "kw": sers[di][0], "wf_ok": wf_ok})
             elif wf_ok:
                 n_near += 1
                 acc, exn = deser_accepts(env, j)
@@ -1095,10 +1434,10 @@ def run(rep, tier):
                 rep.stat("exact", "validator:%s/deserializer:%s" % (verdict, acc))
                 if verdict and not acc:
                     n_exact_dis += 1
-                    rep.finding("C08/exact/%s" % exn,
+                    rep.finding("C08/exact/%s/%s" % (exn, exact_culprit(env, j, exn)),
                                 "a document admitted by the exported schema of %s is rejected by the Deserializer (%s)" % (env.top, exn),
-                                {"python": src + "\nprint(Deserializer(%s).deserialize(%r))" % (env.top, j),
-                                 "classes": env.asts[3:], "doc": j, "schema": ex[1], "definitions": ex[2], "kind": "exact"})
+                                dict(replay_fields(ev), python=script(ev, "print(Deserializer(%s).deserialize(%r))" % (env.top, j)),
+                                     doc=j, schema=ex[1], definitions=ex[2], kind="exact"))
     try:
         wkeys = classify(wf_fail, WF_REPAIRS, "C08/wf/",
                          lambda f: "C08/wf/%s/%s" % ((f["res"]["schema_error"] or {"keyword": "$ref"})["keyword"],
@@ -1111,23 +1450,25 @@ def run(rep, tier):
         rep.broken("oracle:python3-vt(classification)", str(ex))
         wkeys, ckeys, still = [], [], []
     for f, key in zip(wf_fail, wkeys):
-        env, ex, res = f["ctx"]["env"], f["ex"], f["res"]
+        ev, res = f["ev"], f["res"]
+        env, ex = ev.env, ev.out
         what = res["schema_error"]["message"] + " at " + "/".join(res["schema_error"]["path"]) if res["schema_error"] \
             else "unresolved $ref " + ", ".join(res["refs_missing"])
-        rep.finding(key, "export of %s is not a well-formed draft-4 schema with resolving $refs: %s" % (env.top, what),
-                    {"python": f["src"] + "\ns, d = structure_to_schema(%s, {})\nprint(s, d)" % env.top,
-                     "schema": ex[1], "definitions": ex[2], "error": res["schema_error"], "unresolved": res["refs_missing"], "kind": "wf"})
+        rep.finding(key, "export of %s is not a well-formed draft-4 schema with resolving $refs: %s" % (ev.cls, what),
+                    dict(replay_fields(ev), python=script(ev, "print(s, d)"), schema=ex[1], definitions=ex[2],
+                         error=res["schema_error"], unresolved=res["refs_missing"], kind="wf"))
     for f, key, st in zip(comp_fail, ckeys, still):
         if not f["wf_ok"] and st["verdicts"] and st["verdicts"][0] is True:
             continue          # rejected only because of the ill-formed keyword (reported as a wf finding)
-        env, ex, err, kw = f["ctx"]["env"], f["ex"], f["err"], f["kw"]
+        ev, err, kw = f["ev"], f["err"], f["kw"]
+        env, ex = ev.env, ev.out
         rep.finding(key, "a valid instance of %s, serialized, is rejected by its own exported schema: %s (%s at %s)" % (
             env.top, err["message"], err["validator"], "/".join(err["schema_path"])),
-            {"python": f["src"] + "\nx = %s(%s)\nprint(serialize(x))\nprint(structure_to_schema(%s, {}))" % (
-                env.top, ", ".join("%s=%s" % (k, G.py_src(v)) for k, v in kw), env.top),
-             "classes": env.asts[3:], "kwargs": kw, "serialized": f["inst"][0], "schema": ex[1],
-             "definitions": ex[2], "error": err, "kind": "complete"})
-    rep.obligation("oracle:well-formed+refs", True, "%d exports checked by Draft4Validator.check_schema" % len(results))
+            dict(replay_fields(ev), python=script(ev, "x = %s(%s)\nprint(serialize(x))\nprint(s, d)" % (
+                env.top, ", ".join("%s=%s" % (k, G.py_src(v)) for k, v in kw))),
+                 kwargs=kw, serialized=f["inst"][0], schema=ex[1], definitions=ex[2], error=err, kind="complete"))
+    rep.obligation("oracle:well-formed+refs", True, "%d exports (%d environments) checked by Draft4Validator.check_schema" % (
+        len(results), len(envs)))
     rep.obligation("oracle:serialized-valid-instances-validate", True, "%d serialized valid instances validated" % n_ser)
     rep.obligation("oracle:exact-subfragment", True, "%d boundary documents, %d admitted-but-rejected" % (n_near, n_exact_dis))
     rep.cov["streams"].setdefault("export", {})["required_list_mutated_in_place"] = mutated
@@ -1137,9 +1478,9 @@ def run(rep, tier):
         shards = []
         per = 40
         stexts = []
-        for env, ex in zip(envs, exports):
+        for ev in events:
             try:
-                stexts.append(scase_text(env, ex, pats))
+                stexts.append(scase_text(ev, pats))
             except Exception as e:  # noqa
                 stexts.append(None)
         sidx = [i for i, t in enumerate(stexts) if t is not None]
@@ -1151,12 +1492,16 @@ def run(rep, tier):
             shards.append(("S", chunk, body, 4))
         # serializer stream
         rtexts = []
-        for ei, sers, kinds in meta:
-            env = envs[ei]
+        seen_inst = set()
+        for vi, sers, kinds in meta:
+            env = events[vi].env
             for kw, inst, j in sers:
+                if id(inst) in seen_inst:         # the same instance under a later export of the same class
+                    continue
+                seen_inst.add(id(inst))
                 try:
                     st = reify_stored(inst)
-                    rtexts.append((ei, kw, j, rcase_text(env, st[2], j)))
+                    rtexts.append((vi, kw, j, rcase_text(env, st[2], j)))
                 except Exception:  # noqa
                     pass
         for s in range(0, len(rtexts), per):
@@ -1202,28 +1547,33 @@ def run(rep, tier):
                 else:
                     wm += [chunk[i] for i in o[0]]
             concrete = any(not v["no_input"] for v in rep.violations)
+            if os.environ.get("C08_DEBUG"):
+                for vi, kw, j, _ in rm[:12]:
+                    print("DEBUG serializer mismatch:", class_src(events[vi].env.ast(events[vi].env.top)), kw, "->", j)
+                for i in sm[:12]:
+                    print("DEBUG to_schema mismatch:", events[i].env.source()[-900:], events[i].env.history, events[i].pos, events[i].out)
             rep.count("corr:to_schema", len(sidx))
             rep.count("corr:serializer", len(rtexts))
             rep.count("corr:valid4", len(vcases))
             rep.count("corr:wf4", len(wcases))
             rep.cov["streams"]["corr:serializer"]["unmodelled_skipped"] = len(run_)
             rep.cov["streams"]["corr:to_schema"]["model_predicts_clean"] = len(clean)
-            rep.obligation("correspondence:to_schema", not sm, "%d classes, %d mismatches" % (len(sidx), len(sm)))
+            rep.obligation("correspondence:to_schema", not sm, "%d exports, %d mismatches" % (len(sidx), len(sm)))
             rep.obligation("correspondence:serializer", not rm, "%d instances (%d outside the modelled serializer), %d mismatches" % (
                 len(rtexts), len(run_), len(rm)))
             rep.obligation("correspondence:valid4-vs-jsonschema", not vm, "%d (schema, document) pairs, %d mismatches" % (len(vcases), len(vm)))
             rep.obligation("correspondence:wf4-vs-check_schema", not wm, "%d exports, %d mismatches" % (len(wcases), len(wm)))
             rep.obligation("characterisation:clean-implies-wf (evaluated)", not cnw, "%d clean classes" % len(clean))
             if sm and not concrete:
-                i = sm[0]
+                ev = events[sm[0]]
                 rep.broken("correspondence:to_schema",
-                           "model (Schema/ToSchema.v) and structure_to_schema differ on %d generated classes" % len(sm),
-                           {"python": envs[i].source() + "\nprint(structure_to_schema(%s, {}))" % envs[i].top,
-                            "observed": exports[i]})
+                           "model (Schema/ToSchema.v) and structure_to_schema differ on %d exports (first: %s, history %r)" % (
+                               len(sm), ev.cls, ev.env.history[:ev.pos + 1]),
+                           dict(replay_fields(ev), python=script(ev, "print(s, d)"), observed=ev.out))
             if rm and not concrete:
-                ei, kw, j, _ = rm[0]
+                vi, kw, j, _ = rm[0]
                 rep.broken("correspondence:serializer", "model serializer and serialize() differ on %d instances" % len(rm),
-                           {"python": envs[ei].source(), "kwargs": kw, "serialized": j})
+                           {"python": events[vi].env.source(), "kwargs": kw, "serialized": j})
             if vm and not concrete:
                 dtext, j, verdict = vm[0]
                 rep.broken("correspondence:valid4-vs-jsonschema",
@@ -1235,10 +1585,9 @@ def run(rep, tier):
                            {"doc_term": wcases[wm[0]][:3000]})
             if cnw:
                 rep.broken("characterisation:clean-implies-wf", "schema_clean holds but wf_doc fails on %d classes" % len(cnw),
-                           {"python": envs[cnw[0]].source()})
-    if exports:
-        for env, ex in list(zip(envs, exports))[:2]:
-            rep.sample({"classes": env.source()[-700:], "export": repr(ex)[:600]})
+                           {"python": events[cnw[0]].env.source()})
+    for ev in events[:2]:
+        rep.sample({"classes": ev.env.source()[-700:], "history": ev.env.history, "export": repr(ev.out)[:600]})
     if not proofs_ok:
         from harness.props.c17 import broken_build
         broken_build(rep)
@@ -1246,37 +1595,48 @@ def run(rep, tier):
         "re.match / re.search are oracles (Section variables), instantiated per case by tables filled from the real re module",
         "independent validator: jsonschema.Draft4Validator under python3-vt (separate process, JSON exchange)",
         "a field-wrapper class is paired with serialize(compact=True), as documented; every other class with serialize()",
-        "structure_to_schema edits the class's _required list in place; the harness restores it after every export",
+        "the by-value flag of an Enum field is declared uniformly per enum class (classes *V of harness/c08enums.py)",
     ]
     return rep.finish(
-        rule="cases = class environments (1-3 generated classes + fixed Inner/Sub/Other; fields from a weighted grammar over "
-             "the schema-mappable vocabulary incl. a few unmappable ones; optional rename mappers, defaults, required subsets), "
+        rule="cases = class environments (1-4 generated classes + fixed Inner/Sub/Other; fields from a weighted grammar over "
+             "the schema-mappable vocabulary incl. a few unmappable ones, 10 enum classes (plain, int/str/float mix-ins, falsy "
+             "values, by-value); optional rename mappers, defaults, required subsets, reference chains), each with an export "
+             "HISTORY (first / repeated / parts first / interleaved / one shared definitions dict) all of whose exports are "
+             "judged; + deterministic lattices: enum class x position, reference graph x linking construct x history; "
              "3 valid instances each, 6-10 boundary documents on the exact sub-fragment; distinct = distinct (field shapes, outcome)")
 
 
 def replay(obj):
     """Re-run a replay on the implementation + the independent validator alone."""
-    src = obj.get("python")
-    if not src:
+    if not obj.get("classes_src"):
         print("nothing to replay:", obj.get("broken"), obj.get("detail", "")[:500])
         return 2
-    ns = {}
-    exec(G.IMPORTS + "from typedpy import mappers, structure_to_schema, serialize, Deserializer\n", ns)
-    body = src.split("\nprint(")[0].split("\nx = ")[0].split("\ns, d = ")[0]
-    exec(body, ns)
-    top = [c for c in ns if re.fullmatch(r"K\d+_\d+", c)]
-    top = sorted(top, key=lambda n: int(n.split("_")[1]))[-1]
+    pre = G.IMPORTS + "from typedpy import mappers, structure_to_schema, serialize, Deserializer\n" + X.IMPORT
+
+    def play(src, history):
+        ns = {}
+        exec(pre, ns)
+        exec(src, ns)
+        s = d = None
+        for i, (cname, shared) in enumerate(history):
+            s, d = ns["structure_to_schema"](ns[cname], d if (shared and i and isinstance(d, dict)) else {})
+        return ns, s, d
+
+    for src, hist in obj.get("prelude") or []:
+        play(src, hist)
+    print("history    :", obj["history"])
+    ns, schema, defs = play(obj["classes_src"], obj["history"])
+    top = obj["target"]
     cls = ns[top]
-    req0 = list(cls.__dict__.get("_required", []))
-    schema, defs = ns["structure_to_schema"](cls, {})
-    if isinstance(cls.__dict__.get("_required"), list):
-        cls.__dict__["_required"][:] = req0
     print("export     :", json.dumps(schema, default=str)[:1500])
     print("definitions:", json.dumps(defs, default=str)[:1500])
+    kind = obj.get("kind")
+    if not (is_jsonable(schema) and is_jsonable(defs)):
+        print("required: a JSON document")
+        return 1
     doc = fix_dialect_py(json.loads(json.dumps(schema)))
     doc["definitions"] = fix_dialect_py(json.loads(json.dumps(defs)))
     insts = []
-    kind = obj.get("kind")
     if kind == "complete":
         kw = {k: G.unreify(_tup(v), {n: ns[n] for n in ns if isinstance(ns[n], type)}) for k, v in obj["kwargs"]}
         inst = cls(**kw)
